@@ -525,6 +525,47 @@ theorem failed_op_no_trace (size : Nat) (o : DqOp α) (os : List (DqOp α)) (l :
     opsFailed size (o :: os) l = true :: opsFailed size os l := by
   simp [applyOps, opsFailed, h]
 
+/-- **C08.6d (indices of either sign on the yielded deque)**: `blk[i] = v`, `del blk[i]`, `blk.insert(i, v)` with
+any int `i`: a non-negative index is the operation of the same name; `-(k+1)` with `k < len` is position
+`len - 1 - k`; anything outside `-len ≤ i < len` raises IndexError for item assignment / deletion (and leaves no
+trace, `failed_op_no_trace`), while `insert` cuts the position to `0 .. len` and fails only on a full deque. -/
+theorem neg_index_ops (size : Nat) (l : List α) (v : α) (k : Nat) :
+    (DqOp.setI (k : Int) v).apply size l = (DqOp.keep (.set k v)).apply size l ∧
+    (DqOp.delI (k : Int) : DqOp α).apply size l = (DqOp.del k).apply size l ∧
+    (DqOp.insertI (k : Int) v).apply size l = (DqOp.insert k v).apply size l ∧
+    (k < l.length →
+      (DqOp.setI (-((k : Int) + 1)) v).apply size l = (DqOp.keep (.set (l.length - 1 - k) v)).apply size l ∧
+      (DqOp.delI (-((k : Int) + 1)) : DqOp α).apply size l = (DqOp.del (l.length - 1 - k)).apply size l ∧
+      (DqOp.insertI (-((k : Int) + 1)) v).apply size l = (DqOp.insert (l.length - 1 - k) v).apply size l) ∧
+    (l.length ≤ k →
+      (DqOp.setI (-((k : Int) + 1)) v).apply size l = none ∧
+      (DqOp.delI (-((k : Int) + 1)) : DqOp α).apply size l = none ∧
+      (DqOp.insertI (-((k : Int) + 1)) v).apply size l = (DqOp.insert 0 v).apply size l) := by
+  have hk0 : (0 : Int) ≤ (k : Int) := by omega
+  have hneg : ¬ ((0 : Int) ≤ -((k : Int) + 1)) := by omega
+  refine ⟨?_, ?_, ?_, fun hk => ⟨?_, ?_, ?_⟩, fun hk => ⟨?_, ?_, ?_⟩⟩
+  · simp only [DqOp.apply, normIdx, if_pos hk0, Int.toNat_natCast]
+    split <;> simp
+  · simp only [DqOp.apply, normIdx, if_pos hk0, Int.toNat_natCast]
+    split <;> simp
+  · simp only [DqOp.apply, insPos, if_pos hk0, Int.toNat_natCast]
+  · have h1 : -(l.length : Int) ≤ -((k : Int) + 1) := by omega
+    have h2 : (-((k : Int) + 1) + (l.length : Int)).toNat = l.length - 1 - k := by omega
+    have h3 : l.length - 1 - k < l.length := by omega
+    simp only [DqOp.apply, normIdx, if_neg hneg, if_pos h1, h2, if_pos h3, Option.map_some]
+  · have h1 : -(l.length : Int) ≤ -((k : Int) + 1) := by omega
+    have h2 : (-((k : Int) + 1) + (l.length : Int)).toNat = l.length - 1 - k := by omega
+    have h3 : l.length - 1 - k < l.length := by omega
+    simp only [DqOp.apply, normIdx, if_neg hneg, if_pos h1, h2, if_pos h3, Option.map_some]
+  · have h2 : (-((k : Int) + 1) + (l.length : Int)).toNat = l.length - 1 - k := by omega
+    simp only [DqOp.apply, insPos, if_neg hneg, h2]
+  · have h1 : ¬ (-(l.length : Int) ≤ -((k : Int) + 1)) := by omega
+    simp only [DqOp.apply, normIdx, if_neg hneg, if_neg h1, Option.map_none]
+  · have h1 : ¬ (-(l.length : Int) ≤ -((k : Int) + 1)) := by omega
+    simp only [DqOp.apply, normIdx, if_neg hneg, if_neg h1, Option.map_none]
+  · have h2 : (-((k : Int) + 1) + (l.length : Int)).toNat = 0 := by omega
+    simp only [DqOp.apply, insPos, if_neg hneg, h2]
+
 /-- one list of failed operations per block handed out by the loop -/
 theorem mut_fails_length (size hop : Nat) (ops : Nat → List (DqOp α)) (xs : List α) :
     (bloopMutFails size hop ops (⟨[], 0⟩ : BState α) 0 xs).length =
@@ -909,6 +950,9 @@ example : (blocksCall (99:Nat) (.int 2) (.flt (1/2)) none true [0,1,2,3,4] .stop
 example : (blocksCall (99:Nat) (.int 2) (.frac (7/2)) none true [0,1,2] .stop).ending = .stop := by decide +kernel
 example : (blocksCall (99:Nat) (.int 4) (.flt (5/2)) none true [0,1] .stop).events = [(2, [0,1,99,99])] := by decide +kernel
 example : (1/2 : Rat).den ≠ 1 ∧ (0:Nat) < 2 ∧ ((2:Nat):Int) ≤ maxSsize ∧ 2 ≤ [0,1,2,3,4].length := by decide +kernel
+-- indices from the end: blk[-1] = 7 on block 0 (size 4, hop 2) shows as item 1 of block 1; del blk[-5] fails
+example : blocksMut 4 2 (0:Nat) (fun k => applyOps 4 (if k = 0 then [DqOp.setI (-1) 7, .delI (-5)] else [])) [0,1,2,3,4,5] =
+    [[0,1,2,3],[2,7,4,5]] ∧ opsFailed 4 [DqOp.setI (-1) 7, .delI (-5)] [0,1,2,(3:Nat)] = [false, true] := by decide
 -- non-finite hops: size 3, hop = +inf, two items: the padded block; hop = nan: nothing; five items: block 0 only
 example : (blocksCall (99:Nat) (.int 3) (.fnf .pinf) none true [0,1] .stop).events = [(2, [0,1,99])] ∧
     (blocksCall (99:Nat) (.int 3) (.fnf .nan) none true [0,1] .stop).events = [] ∧
